@@ -1,41 +1,11 @@
 import Morlock.Driver.Game
 import Morlock.Driver.Fen
+import Morlock.Model.EngineM
 namespace Morlock.Driver
 open Morlock Morlock.Model
 
-/-- Model of `engine.Engine` as far as the game state goes: `Reset`, `Move`, `TakeBack`, `Position`. -/
-structure EngineM where
-  w : World
-  deriving Inhabited
-
-def EngineM.position (e : EngineM) : String :=
-  let bd := e.w.board 0
-  let c := e.w.cur 0
-  Fen.encode c.pos bd.turn c.noprogress bd.moves
-
-/-- `Engine.Reset`: on a decode error the game is left as it was. -/
-def EngineM.reset (z : ZTable) (e : EngineM) (fen : List Char) : EngineM × Bool :=
-  match Fen.decode fen with
-  | none => (e, false)
-  | some d => (⟨(({} : World).newBoard z d.pos d.turn d.noprogress d.fullmoves).1⟩, true)
-
-/-- `Engine.Move`. -/
-def EngineM.move (z : ZTable) (e : EngineM) (s : List Char) : EngineM × Bool :=
-  match Fen.parseMove s with
-  | none => (e, false)
-  | some cand =>
-    let bd := e.w.board 0
-    match ((e.w.cur 0).pos.pseudoLegalMoves bd.turn).find? (fun m => cand.equals m) with
-    | none => (e, false)
-    | some m => match e.w.pushMove z 0 m with
-      | none => (e, false)
-      | some w' => (⟨w'⟩, true)
-
-/-- `Engine.TakeBack`. -/
-def EngineM.takeBack (e : EngineM) : EngineM × Bool :=
-  match e.w.popMove 0 with
-  | none => (e, false)
-  | some (w', _) => (⟨w'⟩, true)
+/-! The engine model itself (`EngineM`: `reset`, `move`, `takeBack`, `position`) lives in `Model/EngineM.lean`; the
+theorems about it are in `Props/C19` and `Props/C10Engine`. This file runs it against the reference game. -/
 
 /-- What the string denotes, case-insensitively in the file and promotion letters (as `ParseMove` documents). -/
 def normMoveText (s : List Char) : Option String :=
